@@ -196,7 +196,8 @@ func execChunkSeq(t *testing.T, p Plan, src kernel.Source, prop string, monitor 
 						return
 					}
 				}
-				if _, dead := model.DeadlineFor(op.TTL, w.Now()); !dead && written != want {
+				// (also for a value that is expired on arrival: the metadata announces the chunks)
+				if written != want {
 					viol(i, "chunk_count", class, "%s: %d chunks written for %d bytes with payload %d, want %d", op, written, len(op.Data), pay, want)
 					return
 				}
@@ -444,7 +445,7 @@ func init() {
 			}
 			return false
 		},
-		Rule:      "handler-level: the real chunked handler (1-2 handler instances on one backend) against a simulated memcached; seeded sequences of all nine commands over 1-2 keys with key lengths 1..250 (also keys ending in '-', '-0', '-meta' and pairs where one key looks like a derived key of the other), key slices with and without spare capacity, value lengths 0, 1, 2 and k*payload-1, k*payload, k*payload+1 for k=1..5 plus 12 and 37 chunks, arbitrary flags, TTL classes incl. absolute past, clock steps, reply segmentation. Oracle: reference map (results, values, flags), every backend key touched is derived from the command's key, no backend entry shared by two client keys, nothing of a key readable after delete. There is no fault in this property; the simulator contributes the observation point (backend request log and contents), segmentation and the clock. Non-trivial = a value of at least one full chunk; distinct = distinct plan hash",
+		Rule:      "handler-level: the real chunked handler (1-2 handler instances on one backend) against a simulated memcached; seeded sequences of all nine commands over 1-2 keys with key lengths 1..250 (also keys ending in '-', '-0', '-meta' and pairs where one key looks like a derived key of the other), key slices with and without spare capacity, value lengths 0, 1, 2 and k*payload-1, k*payload, k*payload+1 for k=1..5 plus 12 and 37 chunks, arbitrary flags, TTL classes incl. absolute past and absolute more than 30 days ahead, clock steps, reply segmentation. Oracle: reference map (results, values, flags), every backend key touched is derived from the command's key, no backend entry shared by two client keys, nothing of a key readable after delete. There is no fault in this property; the simulator contributes the observation point (backend request log and contents), segmentation and the clock. Non-trivial = a value of at least one full chunk; distinct = distinct plan hash",
 		Real:      realChunked,
 		Stub:      stubChunked,
 		RunsQuick: 5000, RunsThorough: 150000,
